@@ -4,7 +4,7 @@ import Rivaas.Lemmas.PresenceLeaf
 /-
 Driver for C05. Case line (strings hex-encoded, lists as `n item…`):
 
-  <id> J <json> R <n> { <path> <resolves> <n> { <tag> <n> <shown path>… }* <num> <cresolves> <cpanics> <n> <ctag>… }*
+  <id> J <json> R <n> { <path> <resolves> <n> { <tag> <n> <shown path>… }* <num> <embedded> <cresolves> <cpanics> <n> <ctag>… }*
        O <mode 0=partial 1=full 2=runAll 3=interface> <maxErrors> <maxFields> <n> <redacted path>… <singleRule>
        F <n> { <json path> <path as shipped> <tag> <n> <shown path>… }*
        I <n> { <path> <code> }*        (what the type's Validate() method returns; modes 2 = all strategies, 3 = interface only)
@@ -39,10 +39,11 @@ def pRule : P Rule := do
   let r ← bool
   let ts ← list pViol
   let num ← bool
+  let emb ← bool
   let cr ← bool
   let cp ← bool
   let cts ← list str
-  pure { path := p, resolves := r, tags := ts, num := num, cresolves := cr, ctags := if cp then none else some cts }
+  pure { path := p, resolves := r, tags := ts, num := num, emb := emb, cresolves := cr, ctags := if cp then none else some cts }
 
 structure Case where
   top : List (Bytes × Json)
